@@ -153,6 +153,7 @@ PLAN: Dict[str, dict] = {
             G("R-CALLTAIL", "non-constant results are re-aligned with the evaluated polynomial's indeterminates"),
             G("R-OPT-PINNED", "alignment keeps one layout under every option setting (operands with different name sets)", only=in_files("numpoly/align.py")),
             G("R-UNSIGNED", "no caller value meets an unsanitised uint32 exponent (value independent of the argument's type)", only=in_funcs("call")),
+            G("R-NAMES", "the indeterminates handed to the evaluation loop (iteration over poly.indeterminants) keep their names", only=in_files("numpoly/baseclass.py", "poly_function/call.py")),
         ],
         "explanation": "call(): branches raising TypeError for an unknown and for a doubly supplied indeterminate exist and every "
                        "path into the evaluation loop passed the unknown-name guard; numpoly.outer and numpy.outer receive the same "
